@@ -33,6 +33,18 @@ TIERS = {
 STATE_MEASURE = 'distinct (role, cut point class, abort kind, executor flavour) tuples of the connections run'
 
 
+def setup_worker(job: Dict[str, Any]) -> None:
+    import os
+    d = os.path.join(job['scratch'], 'static10')
+    os.makedirs(os.path.join(d, 'sub'), exist_ok=True)
+    with open(os.path.join(d, 'a.txt'), 'wb') as f:
+        f.write(b'small static file\n')
+    with open(os.path.join(d, 'big.bin'), 'wb') as f:
+        f.write(bytes(range(256)) * 280)
+    with open(os.path.join(d, 'sub', 'b.txt'), 'wb') as f:
+        f.write(b'nested\n' * 40)
+
+
 def run_one(tape: Any, cfg: Dict[str, Any], forbid: FrozenSet[str] = frozenset()) -> Result:
     from ..actors import Origin, Peer
     from ..harness import L1, L1R, make_flags, scratch_dir
@@ -51,8 +63,12 @@ def run_one(tape: Any, cfg: Dict[str, Any], forbid: FrozenSet[str] = frozenset()
         opts = scen.proxy_opts(tape, 16)
         route = make_web_route_plugin(1, r'/web', lambda tg: b'web-reply:' + tg + b'x' * 50)
         rp = make_reverse_plugin([(r'/rev', [b'http://10.0.0.3/base'])])
+        import os
+        static_dir = os.path.join(scratch_dir(), 'static10')
+        files_before = scen.real_fds_under(static_dir)
         flags = make_flags(['--enable-reverse-proxy'], threadless=True, local_executor=0 if remote else 1,
-                           timeout=2 if timeout_mode else 3600, enable_web_server=True,
+                           timeout=2 if timeout_mode else 3600, enable_web_server=True, enable_static_server=True,
+                           static_server_dir=static_dir, min_compression_length=[20, 1 << 30][tape.draw(2, 'mincomp')],
                            plugins=[route, rp], basic_auth=None, **opts)
         h: Any = L1R(w, flags) if remote else L1(w, flags)
         if remote:
@@ -125,7 +141,10 @@ def run_one(tape: Any, cfg: Dict[str, Any], forbid: FrozenSet[str] = frozenset()
             if ending != 'normal' or cut_frac:
                 aborted = True
             if role == 'forward':
-                req = b'GET http://' + host + b'/x HTTP/1.1\r\nHost: ' + host + b'\r\n\r\n'
+                # (a quarter of the forward requests carry a byte that is not UTF-8 in the target: fine on the wire, awkward for
+                # whatever turns the request into text when the connection ends)
+                odd = b'/caf\xe9' if tape.coin(0.25, 'odd-bytes') else b''
+                req = b'GET http://' + host + b'/x' + odd + b' HTTP/1.1\r\nHost: ' + host + b'\r\n\r\n'
                 full: List[Any] = [('send', req, 'burst'), ('wait_rx', lambda p: count_responses(bytes(p.rx)) >= 1),
                                    ('send', req, 'burst'), ('wait_rx', lambda p: count_responses(bytes(p.rx)) >= 2)]
             elif role == 'tunnel':
@@ -137,7 +156,9 @@ def run_one(tape: Any, cfg: Dict[str, Any], forbid: FrozenSet[str] = frozenset()
                 full = [('send', req, 'burst'), ('wait_rx', lambda p: count_responses(bytes(p.rx)) >= 1),
                         ('send', req, 'burst'), ('wait_rx', lambda p: count_responses(bytes(p.rx)) >= 2)]
             elif role == 'static':
-                req = b'GET /nosuchfile HTTP/1.1\r\nHost: l\r\n\r\n'
+                # a missing file, files of two sizes, a nested file, and two directories (which cannot be served)
+                spath = [b'/nosuchfile', b'/a.txt', b'/big.bin', b'/sub/b.txt', b'/sub', b'/'][tape.draw(6, 'static-path')]
+                req = b'GET ' + spath + b' HTTP/1.1\r\nHost: l\r\n\r\n'
                 full = [('send', req, 'burst'), ('wait_eof',)]
             elif role == 'reverse':
                 req = b'GET /rev HTTP/1.1\r\nHost: l\r\n\r\n'
@@ -225,6 +246,15 @@ def run_one(tape: Any, cfg: Dict[str, Any], forbid: FrozenSet[str] = frozenset()
                 w.fail('socket_left_to_gc', w.gc_closed_labels[0].split(':')[0],
                        'connected socket(s) %r were never closed by the proxy: their descriptors were released only when the '
                        'socket objects were garbage collected' % (w.gc_closed_labels[:4],))
+            if not w.failures:
+                files_after = scen.real_fds_under(static_dir)
+                extra = list(files_after)
+                for f in files_before:
+                    if f in extra:
+                        extra.remove(f)
+                if extra:
+                    w.fail('file_left_open', 'static', 'files of the static directory still open after the connections ended: %r'
+                           % extra[:5])
             if not w.failures and w.closes_bad:
                 w.fail('bad_close', w.closes_bad[0][2], 'close of a descriptor that was not open or belongs to someone else: %r' % w.closes_bad[:4])
             if not w.failures:
